@@ -252,6 +252,10 @@ func generateDataKey(ctx context.Context, clients []AWSKMSClient) (*kms.Generate
 			continue
 		}
 
+		// KMS reports the key ARN in KeyId however the key was named in the request (alias, key id). Name the key
+		// the way this client is configured, so the region that generated the data key is recognized as such.
+		resp.KeyId = aws.String(c.ARN)
+
 		return resp, nil
 	}
 
